@@ -31,6 +31,7 @@ def make_chain(depth, nnames=3):
         fs.sysroot.children = {'r': fs.root}
         boundary = v.choice('boundary', depth + 2)   # levels < boundary are on device 2
         xlevel = v.choice('xlevel', depth + 2)       # level whose Manifest file is elsewhere
+        own = v.bool('own')
         c.levels = []
         comps = ['d%d' % i for i in range(1, depth + 1)]
         for k in range(depth + 1):
@@ -42,7 +43,7 @@ def make_chain(depth, nnames=3):
                 fs.add_dir(rel, dev=dev)
             present = v.bool(f'p{k}')
             name = v.lazychoice(f'n{k}', nnames)
-            ign = v.lazychoice(f'i{k}', 5)
+            ign = v.lazychoice(f'i{k}', len(IGN))
             mdev_other = xlevel == k
             lev = {'present': present, 'dev': dev}
             if present:
@@ -58,6 +59,13 @@ def make_chain(depth, nnames=3):
                     ents.append(mk('IGNORE', rest[0] + 'x'))
                 elif kind == 'lookalike':
                     ents.append(mk('IGNORE', '/'.join(rest)[:-1]))
+                if own and k >= 1:
+                    # entries that say nothing about the start path: they are relative to
+                    # this Manifest's own directory, but would match the start path if they
+                    # were (wrongly) read relative to the parent directory
+                    ents.append(mk('IGNORE', comps[k - 1]))
+                    if rest:
+                        ents.append(mk('IGNORE', '/'.join(comps[k - 1:])))
                 mn = fs.add_manifest(posixpath.join(rel, nm), ents)
                 # the Manifest file itself may sit on another device (bind mount of a file)
                 mn.dev = (3 - dev) if mdev_other else dev
@@ -110,6 +118,8 @@ def conditions(tier):
         parts = [('allow_compressed', (False, True)), ('allow_xdev', (False, True)),
                  ('boundary', range(depth + 2))]
         parts += [(f'p{k}', (False, True)) for k in range(depth + 1)]
+        if full and depth == 3:
+            parts.append(('own', (False, True)))
         for fx in partitions(parts):
             nm = f'find_d{depth}_' + ''.join(str(int(x)) for x in fx.values())
             cs.append(make_cond(
@@ -119,7 +129,9 @@ def conditions(tier):
                                   and fx['allow_xdev'] and fx['boundary'] == 0),
                 descr=f'real find_top_level_manifest from depth {depth} on the model; per '
                       'level symbolic: Manifest name (plain/.gz/.bz2), IGNORE kind (none, the '
-                      'start path, an ancestor of it, a sibling, a string-prefix look-alike), '
+                      'start path, an ancestor of it, a sibling, a string-prefix look-alike, and optionally, '
+                      'in every Manifest, the name of its own directory and the start path '
+                      'relative to its parent), '
                       'Manifest file on another device; device boundary at any level',
                 bounds=f'chain of {depth + 1} levels below /, presence bits partitioned'))
     return cs
